@@ -98,10 +98,10 @@ def generate(seed, tier):
         size = len(tables[data])
         if rng.random() < 0.7:
             mode = rng.choice(["raise", "yield", "continue"])
-            api = rng.choice(["Reader", "rows", "validate"])
+            api = rng.choice(["Reader", "rows", "validate", "validate_rows"])
             runs.append({"kind": "read", "data": data, "api": api, "mode": "raise" if api == "validate" else mode,
                          "limit": rng.choice([None, None, 0, 1, 2, size, size + 1]),
-                         "stop_after": rng.choice([None, None, None, 0, 1, 2]) if api != "validate" else None,
+                         "stop_after": rng.choice([None, None, None, 0, 1, 2]) if api in ("Reader", "rows") else None,
                          "close_twice": rng.random() < 0.3, "create": rng.choice(["late", "late", "early"]),
                          "never_close": rng.random() < 0.15})
         else:
